@@ -133,12 +133,17 @@ func c17Run(channel string, flags []bool, jsonCfg map[string]interface{}) ([]c17
 	for i := range all {
 		all[i] = true
 	}
+	noneButMaster := make([]bool, 26)
+	noneButMaster[0] = true
 	var opts map[string]interface{}
 	switch channel {
 	case "initializationOptions":
 		opts = c17FlagOpts(flags)
 	case "didChangeConfiguration":
 		opts = c17FlagOpts(all)
+	case "didChangeConfiguration-from-all-off":
+		// every check is off at start-up and the configuration under test arrives as a later settings change
+		opts = c17FlagOpts(noneButMaster)
 	case "luahelper.json":
 		b, _ := json.Marshal(jsonCfg)
 		files["luahelper.json"] = string(b)
@@ -151,6 +156,14 @@ func c17Run(channel string, flags []bool, jsonCfg map[string]interface{}) ([]c17
 		return nil, err
 	}
 	defer s.Close()
+	if channel == "didChangeConfiguration-from-all-off" {
+		if err := s.Notify("workspace/didChangeConfiguration", c17Settings(noneButMaster)); err != nil {
+			return nil, err
+		}
+		if err := s.Notify("workspace/didChangeConfiguration", c17Settings(flags)); err != nil {
+			return nil, err
+		}
+	}
 	if channel == "didChangeConfiguration" {
 		// the client's automatic first synchronisation is ignored by design; the second one is "a later settings change"
 		if err := s.Notify("workspace/didChangeConfiguration", c17Settings(all)); err != nil {
@@ -222,14 +235,14 @@ func c17FlagConfigs(tier string) []c17Cfg {
 
 func c17ServerSpace(tier string) *core.Space {
 	cfgs := c17FlagConfigs(tier)
-	chans := []string{"initializationOptions", "didChangeConfiguration", "luahelper.json"}
+	chans := []string{"initializationOptions", "didChangeConfiguration", "luahelper.json", "didChangeConfiguration-from-all-off"}
 	return &core.Space{
-		Name: "flag-configurations-x-3-channels", N: int64(len(cfgs) * len(chans)), Chunk: 20, RecycleEvery: 40,
+		Name: "flag-configurations-x-4-channels", N: int64(len(cfgs) * len(chans)), Chunk: 20, RecycleEvery: 40,
 		Describe: func(i int64) interface{} {
-			return map[string]interface{}{"configuration": cfgs[i/3].desc, "channel": chans[i%3]}
+			return map[string]interface{}{"configuration": cfgs[i/int64(len(chans))].desc, "channel": chans[i%int64(len(chans))]}
 		},
 		Run: func(i int64, r *core.Result) {
-			cfg, ch := cfgs[i/3], chans[i%3]
+			cfg, ch := cfgs[i/int64(len(chans))], chans[i%int64(len(chans))]
 			base, err := c17Baseline()
 			r.Evaluated++
 			if err != nil {
